@@ -105,12 +105,15 @@ func (n *Net) Deliver(j int, msg []byte) {
 	n.Nodes[j].KV.NotifyMsg(append([]byte(nil), msg...))
 }
 
-// PushPull exchanges full states between i and j in both directions.
-func (n *Net) PushPull(i, j int) {
-	a := append([]byte(nil), n.Nodes[i].KV.LocalState(false)...)
-	b := append([]byte(nil), n.Nodes[j].KV.LocalState(false)...)
-	n.Nodes[j].KV.MergeRemoteState(a, false)
-	n.Nodes[i].KV.MergeRemoteState(b, false)
+// PushPull exchanges full states between i and j in both directions (the periodic exchange).
+func (n *Net) PushPull(i, j int) { n.PushPullJoin(i, j, false) }
+
+// PushPullJoin is the exchange with memberlist's join flag: true for the exchange a node runs while joining.
+func (n *Net) PushPullJoin(i, j int, join bool) {
+	a := append([]byte(nil), n.Nodes[i].KV.LocalState(join)...)
+	b := append([]byte(nil), n.Nodes[j].KV.LocalState(join)...)
+	n.Nodes[j].KV.MergeRemoteState(a, join)
+	n.Nodes[i].KV.MergeRemoteState(b, join)
 }
 
 // Push sends the full state of i to j only.
